@@ -224,7 +224,31 @@ def r11_4(ctx):
            'restart_state(max_restarts, max_restart_freq or 1)')
 
 
+
+def r11_5(ctx):
+    ctx.rule('R11.5', 'every restart is judged with the clock at the moment it is decided: the pool calls the limiter\'s '
+                      'step() without a time of its own (a time taken at the start of a supervision pass is stale by the '
+                      'time the third replacement of that pass is started)', floor=1)
+    m = ctx.model
+    n_ = 0
+    for qn, fi in sorted(m.funcs.items()):
+        if fi.module.name != 'pool':
+            continue
+        for (n, c) in q.calls(fi, lambda t: t.endswith('restart_state.step')):
+            n_ += 1
+            ok = not c.args and not c.keywords
+            ctx.ob('R11.5', '%s:step-reads-the-clock-itself' % fi.qual.split(':')[1], ok, fi, c,
+                   'restart_state.step()' if ok else
+                   '`%s`: the limiter is given a time that was read earlier' % ast.unparse(c)[:50])
+    q.need(n_ >= 1, 'nobody consults the limiter')
+
+
 def run(ctx):
+    r11_5(ctx)
+    # the refill gets the statuses of the workers the same pass reaped (borrowed from C09)
+    from .c09 import r09_3 as _r09_3
+    from ..report import Only as _Only11b
+    _r09_3(_Only11b(ctx, ('refill-gets-reaper-result',), floor=1, doc='_maintain_pool hands the reaper\'s result to the refill'))
     # the limiter is fed the statuses the reaper recorded, all of them and as they are (borrowed from C10)
     from .c10 import r10_4 as _r10_4
     from ..report import Only as _Only11
@@ -238,6 +262,7 @@ def run(ctx):
 _P = 'billiard/pool.py'
 _C = 'billiard/common.py'
 MUTANTS = [
+    ('limiter-given-the-pass-start-time', 'billiard/pool.py', "                    self.restart_state.step()\n", "                    self.restart_state.step(getattr(self, '_pass_started', None))\n", 'R11.5'),
     ('burst-limiter-rebuilt-every-tick', _P, "            pool.restart_state = restart_state(10 * pool._processes, 1)\n            for _ in range(10):\n                if self._state == RUN and pool._state == RUN:\n",
      "            for _ in range(10):\n                if self._state == RUN and pool._state == RUN:\n                    pool.restart_state = restart_state(10 * pool._processes, 1)\n", 'R11.4'),
     ('burst-limiter-installed-at-once', _P, "        debug('worker handler starting')\n\n        time.sleep(0.8)\n\n        pool = self.pool\n",
